@@ -19,6 +19,19 @@ impl FlattenConfigObject {
     pub fn to_emmyrc(&self) -> Value {
         to_emmyrc_json(self)
     }
+
+    /// Merge a later config into this one, key by key: `merge_value(base, later)` is
+    /// called for keys present in both, other keys are added.
+    pub fn merge(&mut self, later: FlattenConfigObject, merge_value: impl Fn(&mut Value, Value)) {
+        for (key, value) in later.config {
+            match self.config.get_mut(&key) {
+                Some(base) => merge_value(base, value),
+                None => {
+                    self.config.insert(key, value);
+                }
+            }
+        }
+    }
 }
 
 fn flatten_object(prefix: &str, val: &Value, config: &mut HashMap<String, Value>) {
